@@ -75,7 +75,7 @@ def cl_case(draw):
     ref = draw(st.one_of(gen.box_map(shape, k=3), gen.free_map(shape, k=1, density=1)))
     pred = draw(st.one_of(gen.derived_pred(ref), gen.box_map(shape, k=3)))
     sel = draw(st.booleans())
-    d = {"kind": "cl", "dtype": draw(st.sampled_from(["uint8", "bool", "int64"])), "ref": gen.binar(ref).tolist(), "pred": gen.binar(pred).tolist()}
+    d = {"kind": "cl", "layout": draw(st.sampled_from(["C", "C", "F", "T", "neg"])), "dtype": draw(st.sampled_from(["uint8", "bool", "int64"])), "ref": gen.binar(ref).tolist(), "pred": gen.binar(pred).tolist()}
     if sel and d["dtype"] != "bool":
         d["ref_idx"] = 1
         d["pred_idx"] = 1
